@@ -188,12 +188,19 @@ def make_machine(pool, stats, sd):
                 stats.fail(f)
 
         @precondition(lambda self: self.log is not None)
-        @rule(op=st.sampled_from(TAMPERS), s=st.integers(0, 2 ** 30))
-        def replay_tampered(self, op, s):
+        @rule(s=st.integers(0, 2 ** 30))
+        def replay_tampered(self, s):
+            # the operator is a function of the drawn integer (Hypothesis' sampled_from favours the first element heavily);
+            # an operator that does not apply to this log gives way to the next one
             rng = random.Random(s)
-            L, changed = tamper(self.log, op, rng)
-            if not changed:
-                stats.classes["tamper not applicable"] += 1
+            k0 = rng.randrange(len(TAMPERS))
+            for k in range(len(TAMPERS)):
+                op = TAMPERS[(k0 + k) % len(TAMPERS)]
+                L, changed = tamper(self.log, op, rng)
+                if changed:
+                    break
+                stats.classes["tamper not applicable: " + op] += 1
+            else:
                 return
             case = dict(self.case, tamper=op, log=L)
             r = run_replay(self.doc, self.argv, json.dumps(L))
@@ -205,9 +212,10 @@ def make_machine(pool, stats, sd):
                 stats.fail(f)
 
         @precondition(lambda self: self.log is not None)
-        @rule(op1=st.sampled_from(TAMPERS), op2=st.sampled_from(TAMPERS), s=st.integers(0, 2 ** 30))
-        def replay_doubly_tampered(self, op1, op2, s):
+        @rule(s=st.integers(0, 2 ** 30))
+        def replay_doubly_tampered(self, s):
             rng = random.Random(s)
+            op1, op2 = rng.choice(TAMPERS), rng.choice(TAMPERS)
             L, c1 = tamper(self.log, op1, rng)
             L, c2 = tamper(L, op2, rng)
             if L == self.log:
@@ -226,7 +234,7 @@ def make_machine(pool, stats, sd):
 
 def pool_strategy():
     blk = st.one_of(gen.block(max_len=14), gen.block(max_len=16, profile=gen.MEM_PROFILE), gen.block(max_len=12, profile=gen.ARITH_PROFILE),
-                    gen.block(max_len=22, profile=gen.SPLIT_PROFILE), gen.corpus_block())
+                    gen.block(max_len=22, profile=gen.SPLIT_PROFILE), gen.corpus_block(), gen.two_store_block())
     return st.lists(st.lists(blk, min_size=3, max_size=8), min_size=10, max_size=10)
 
 
